@@ -30,9 +30,13 @@ theorem generated_makeChanges_sound : ESR.Gen.Gather.makeChanges.Sound := by
   · intro N P r L _
     by_cases h : divPoint N P r < divPoint N P (r + 1)
     · exact ⟨divPoint N P r, by simp [ESR.Gen.Gather.makeChanges, Ix.eval, splitIdx_nonempty h, natOf], fun _ => rfl⟩
-    · exact ⟨N, by simp [ESR.Gen.Gather.makeChanges, Ix.eval, splitIdx_empty h, natOf], fun h' => absurd h' h⟩
+    · -- a rank without a block compares nothing: any base that evaluates will do
+      have he : ∃ m, (ESR.Gen.Gather.makeChanges.cmpBase.eval ⟨N, r, P, L⟩).bind natOf = some m := by
+        simp [ESR.Gen.Gather.makeChanges, Ix.eval, splitIdx_empty h, natOf]
+      obtain ⟨m, hm'⟩ := he
+      exact ⟨m, hm', fun h' => absurd h' h⟩
   · intro xs
-    simp [ESR.Gen.Gather.makeChanges, applySteps, PStep.apply]
+    simp [ESR.Gen.Gather.makeChanges, applySteps, PStep.apply, cumsum, cumsumFrom]
 
 /-- **Tie to the source.** In `check_results` as it stands the slice scattered to rank `r` is its `split_idx` block (empty for a
 rank without work) and the offset added to a local flagged index is the start of that block. -/
@@ -45,14 +49,21 @@ theorem generated_checkResults_sound : ESR.Gen.Gather.checkResults.Sound := by
       · simp [ESR.Gen.Gather.checkResults, Ix.eval, splitIdx_nonempty h, natOf]
       · simp [ESR.Gen.Gather.checkResults, Ix.eval, splitIdx_nonempty h, natOf]
         all_goals omega
-    · refine ⟨N, N, ?_, ?_, fun h' => absurd h' h, fun _ => Nat.le_refl _⟩
-      · simp [ESR.Gen.Gather.checkResults, Ix.eval, splitIdx_empty h, natOf]
-      · simp [ESR.Gen.Gather.checkResults, Ix.eval, splitIdx_empty h, natOf]
+    · -- a rank without a block: any empty slice (`hi ≤ lo`) will do
+      have he : ∃ lo hi, (ESR.Gen.Gather.checkResults.sliceLo.eval ⟨N, r, P, 0⟩).bind natOf = some lo ∧
+          (ESR.Gen.Gather.checkResults.sliceHi.eval ⟨N, r, P, 0⟩).bind natOf = some hi ∧ hi ≤ lo := by
+        simp [ESR.Gen.Gather.checkResults, Ix.eval, splitIdx_empty h, natOf]
         all_goals omega
+      obtain ⟨lo, hi, h1, h2, h3⟩ := he
+      exact ⟨lo, hi, h1, h2, fun h' => absurd h' h, fun _ => h3⟩
   · intro N P r L _
     by_cases h : divPoint N P r < divPoint N P (r + 1)
     · exact ⟨divPoint N P r, by simp [ESR.Gen.Gather.checkResults, Ix.eval, splitIdx_nonempty h, natOf], fun _ => rfl⟩
-    · exact ⟨N, by simp [ESR.Gen.Gather.checkResults, Ix.eval, splitIdx_empty h, natOf], fun h' => absurd h' h⟩
+    · -- a rank without a block flags nothing: any offset that evaluates will do
+      have he : ∃ m, (ESR.Gen.Gather.checkResults.offset.eval ⟨N, r, P, L⟩).bind natOf = some m := by
+        simp [ESR.Gen.Gather.checkResults, Ix.eval, splitIdx_empty h, natOf]
+      obtain ⟨m, hm'⟩ := he
+      exact ⟨m, hm', fun h' => absurd h' h⟩
 
 /-! ### make_changes -/
 
